@@ -49,6 +49,11 @@ def pinned_cases():
             'blocks': [dict(type=10, num=2, flags=1, crc_type=1, data=ref9171.btsd_hop_count(24, 3)),
                        dict(type=1, num=1, flags=0, crc_type=2, data='00' * 24)]}
     yield 'basic-ref', {'bundle': base, 'mode': 'ref'}
+    # about a hundred canonical blocks (a list length at which dissectors built on scapy change behaviour)
+    for count in (99, 100, 101, 150):
+        many = [dict(type=192 + i % 3, num=2 + i, flags=0, crc_type=i % 3, data='%02x' % (i % 256)) for i in range(count)]
+        for mode in ('ref', 'repo'):
+            yield 'bundle-with-%d-extension-blocks-%s' % (count, mode), {'bundle': dict(base, blocks=many + [base['blocks'][-1]]), 'mode': mode}
     zero = dict(base, primary=dict(base['primary'], ts=[0, 17]))
     yield 'time-zero-read-and-written-back', {'bundle': zero, 'mode': 'ref', 'timeform': 'reassign'}
     yield 'basic-repo', {'bundle': base, 'mode': 'repo-obj'}
